@@ -229,6 +229,11 @@ def gen_content(rng, shape, dtype, force_aff=False):
     if kind == "aff":
         if integer:
             # stays inside 0..255 on shapes up to 40 per side
+            if dtype in ("int16", "int32") and rng.random() < 0.6:
+                # signed dtypes: negative pixel values and negative slopes (|value| < 32768 on shapes up to 72 per
+                # side) - seeded C01-4 clipped resampled integer pixels at 0
+                return ["aff", rng.randint(-400, -200)] + [c * rng.choice([1, -1]) for c in
+                                                            rng.sample([1, 2, 3][:d] if d == 3 else [1, 2, 3], d)]
             return ["aff", rng.randint(0, 15)] + rng.sample([1, 2, 3][:d] if d == 3 else [1, 2, 3], d)
         coef = [rng.choice([-3, -2, -1.5, -1, -0.5, 0.5, 1, 1.5, 2, 3]) for _ in range(d)]
         if len(set(abs(c) for c in coef)) < d:          # distinct slopes: a swapped axis is visible
@@ -240,7 +245,8 @@ def gen_content(rng, shape, dtype, force_aff=False):
         den = 1 if integer else rng.choice([1, 2, 4])
         coefs = [rng.randint(1, 9) for _ in range(d)] + [rng.randint(0, 3)]
         return ["hash"] + coefs + [m, den]
-    vals = [rng.randint(0, 40) if integer else rng.randint(-64, 64) / 4.0 for _ in range(shape[0] * shape[1])]
+    lo = -40 if dtype in ("int16", "int32") else 0
+    vals = [rng.randint(lo, 40) if integer else rng.randint(-64, 64) / 4.0 for _ in range(shape[0] * shape[1])]
     return ["tab", vals]
 
 
